@@ -173,3 +173,36 @@ def rel_period(work, V):
             {'module': 'RelPeriodMech', 'cfg': 'MC_RelPeriod_prefix.cfg (month shifted from the reference day, before the fix)', 'distinct_states': old['distinct'], 'violation': old['violation'], 'expected_violation': 'MeetsContract'},
             {'module': 'RelPeriodMech', 'cfg': 'MC_RelPeriod_weekend.cfg (outside C08: weekend TIMEX year)', 'distinct_states': we['distinct'], 'violation': we['violation'], 'expected_violation': 'WeekendIsoYear'},
             {'module': 'RelPeriodMech', 'cfg': 'MC_RelPeriod_bind.cfg', 'distinct_states': b['distinct'], 'inputs_replayed_into_code': len(cases), 'drift': drift}]
+
+
+def add_mod(work, V, limit=6000):
+    """AddMod.tla: ChineseMergedExtractor.add_mod keeps text = slice, bounds and disjointness for every query of up to
+    five stand-in words; the transcription of the code before the fix must fail; a counterexample outside the listed
+    properties (a prefix modifier swallows whatever lies between it and the entity) is kept as MC_AddMod_adjacent.
+    Every initial state of the bind configuration is replayed into the real add_mod."""
+    ok = tlc.run(work, 'AddMod', cfg='MC_AddMod.cfg', dump=True, timeout=1200)
+    old = tlc.run(work, 'AddMod', cfg='MC_AddMod_prefix.cfg', timeout=600)
+    adj = tlc.run(work, 'AddMod', cfg='MC_AddMod_adjacent.cfg', timeout=600)
+    if not ok['ok']:
+        V.note('mechanism-drift: AddMod violates %s' % ok['violation'])
+    inits, finals = {}, {}
+    for st in tlc.read_dump(ok['dump']):
+        if st['pc'] == 'loop' and st['k'] == 1:
+            inits[st['src']] = st['ents']
+        elif st['pc'] == 'done':
+            finals[st['src']] = st['ents']
+    keys = sorted(inits)
+    step = max(1, len(keys) // limit)
+    keys = keys[::step]
+    cases = [{'api': 'addmod', 'src': k, 'ents': [{'start': e['start'], 'length': e['length']} for e in inits[k]]} for k in keys]
+    obs = pool.run_cases(cases, init_name='datetime', batch=300, timeout=20.0)
+    drift = 0
+    for k, o in zip(keys, obs):
+        want = [[e['start'], e['length'], True] for e in finals[k]]
+        if o.get('out') != want:
+            drift += 1
+            if drift <= 2:
+                V.note('mechanism-drift: add_mod(%r): model %s, code %s' % (k, want, o))
+    return [{'module': 'AddMod', 'cfg': 'MC_AddMod.cfg', 'distinct_states': ok['distinct'], 'violation': ok['violation'], 'queries_replayed_into_code': len(cases), 'drift': drift},
+            {'module': 'AddMod', 'cfg': 'MC_AddMod_prefix.cfg (add_mod before the fix)', 'distinct_states': old['distinct'], 'violation': old['violation'], 'expected_violation': 'InBounds or TextIsSlice'},
+            {'module': 'AddMod', 'cfg': 'MC_AddMod_adjacent.cfg (outside the listed properties)', 'distinct_states': adj['distinct'], 'violation': adj['violation'], 'expected_violation': 'OnlyAdjacent'}]
